@@ -57,7 +57,7 @@ CHILDREN = [
 
 
 def probe_values(default_marker):
-    return [UNBOUND, None, default_marker, '', 'a<b&"c\'', 0, 7, [10, 20, 30], [], True, {'title': 't<'}]
+    return [UNBOUND, None, default_marker, '', 'a<b&"c\'', 0, 7, [10, 20, 30], [], True, {'title': 't<'}, ('p', 'q')]
 
 
 class Run:
